@@ -410,11 +410,15 @@ def run(model, tier="quick"):
 
 
 MANIFEST = {
-    "technique": "formula and ledger identity against a reference model (value numbering to rational normal forms) plus loop-shape and isolation rules",
+    "technique": "formula, ledger and canonical-loop identity against a reference model (value numbering to rational normal forms) plus a cell-object mutation (alias) analysis",
     "claim": "The Deribit fee, pre-trade checks, buy/sell ledgers (cash, book write-back, position, averages, action "
-             "record) and equity are shown identical, path by path, to a reference model written from the statement; "
-             "the fill loop is shown to visit levels in list order taking min(level, remaining); sells are gated by "
-             "the holding; the fill loop only sees deep copies of the book.",
+             "record), the cash account (deposit / withdraw / overdraft rejection), the cost estimate, the per-bar status "
+             "(snapshot of the hour containing the bar) and equity are identical, path by path, to a reference model "
+             "written from the statement; the fill loop equals the reference loop (list order, min(level, remaining), level "
+             "shrunk by the take, stop conditions, limit orders only at the matching level); sells are gated by the holding; "
+             "no in-place mutation can reach a level list stored in the loaded data (every mutating function receives a "
+             "deep copy; the book shrinks only by rebinding the cell to a new list).",
     "note": "Trusted: the reference model in sa/props/C15.py; helper functions treated as opaque atoms; list-of-levels "
-            "data layout. Not decided: sortedness of the data, float rounding of level sizes.",
+            "data layout; pandas copy-on-write not protecting objects inside cells. Not decided: sortedness of the data, "
+            "float rounding of level sizes.",
 }
